@@ -67,6 +67,12 @@ Theorem C15_http_request_headers_kept : forall m v,
   Permutation (r_headers (reser_req m)) (r_headers m).
 Proof. exact reser_req_same_headers. Qed.
 
+(* ... and the permutation is order-preserving among fields of the same name (repeated
+   Cookie / Set-Cookie / X-Forwarded-For lines keep their order): [named n h] = field h has name n *)
+Theorem C15_http_repeated_fields_keep_order : forall n l,
+  filter (named n) (sort_headers l) = filter (named n) l.
+Proof. exact sort_headers_stable. Qed.
+
 Theorem C15_http_reply_contract : forall p,
   let p' := reser_resp p in
   p_status p' = p_status p /\ p_chunked p' = p_chunked p /\ p_body p' = p_body p /\
@@ -80,6 +86,14 @@ Theorem C15_http_pipelined_refuted :
     exists s, run [ISeg (a ++ b); IWait 2%N] (st0 [[reply]; [reply]]) = (s, EGaveUp) /\
               rev (s_fwd s) = [reser_req ma] /\ s_recvd s = 1%N.
 Proof. exact pipelined_refuted. Qed.
+
+(* the defect in general: whatever follows a (length-framed) request in the same write -
+   a second request, part of one, anything - is read into the reader's buffer and dropped
+   with it: the run is the same as if the write had ended with the request *)
+Theorem C15_http_readahead_dropped : forall msg m x rest s,
+  frame_req msg = QComplete (length msg) m -> r_chunked m = false -> s_buf s = [] ->
+  run (ISeg (msg ++ x) :: rest) s = run (ISeg msg :: rest) s.
+Proof. exact readahead_dropped_eq. Qed.
 
 Theorem C15_http_user_agent_refuted :
   exists msg m, sd_req msg m /\ hget S_UA (r_headers m) = None /\
@@ -204,3 +218,5 @@ Print Assumptions C15_ssh_cross_order_refuted.
 Print Assumptions C15_ssh_early_close_delivers_prefix.
 Print Assumptions C15_ssh_no_early_close_delivers_all.
 Print Assumptions C15_ssh_early_close_refuted.
+Print Assumptions C15_http_readahead_dropped.
+Print Assumptions C15_http_repeated_fields_keep_order.
